@@ -13,8 +13,6 @@ import SockModel.Drive.C14
 import SockModel.Drive.C15
 import SockModel.Drive.C17
 import SockModel.Drive.C18
-import SockModel.Drive.C01Old
-import SockModel.Drive.C06Old
 /- Only the drivers: nothing under Props/ (and hence not Generated/Funcs.lean) is reachable from here, so the
 `sockmodel` executable keeps building when a theorem of one property breaks against the current tree. -/
 open SockModel.Drive
@@ -47,10 +45,6 @@ def dispatch (mode : String) : Option (List String → Verdict) :=
   | "C12" => some SockModel.Drive.C12.runCase
   | "C18" => some SockModel.Drive.C18.runCase
   | "C15" => some SockModel.Drive.C15.runCase
-  | "C07sOld" => some SockModel.Drive.C01Old.runCaseC07
-  | "C16Old" => some SockModel.Drive.C01Old.runCaseC16
-  | "C16stepOld" => some SockModel.Drive.C01Old.runCaseC16step
-  | "C06Old" => some SockModel.Drive.C06Old.runCase
   | _ => none
 
 def main (args : List String) : IO UInt32 := do
